@@ -112,9 +112,22 @@ func randSp() ext {
 
 // an ID related to e: ancestor, descendant, sibling, neighbour, or the same
 func relative(e ext) ext {
-	switch rng.Intn(8) {
+	switch rng.Intn(9) {
 	case 0:
 		return e
+	case 8: // the same voxel mirrored across the grid: the TOP bit of x or y flipped (same low bits, other quadrant)
+		r := e
+		if e.h >= 1 {
+			if rng.Intn(2) == 0 {
+				r.x ^= pow2(e.h - 1)
+			} else {
+				r.y ^= pow2(e.h - 1)
+			}
+			if rng.Intn(3) == 0 && e.h >= 2 {
+				r.y ^= pow2(e.h - 2)
+			}
+		}
+		return r
 	case 7: // the same five NUMBERS except one zoom: a different voxel that shares every index with e
 		r := e
 		if rng.Intn(2) == 0 {
@@ -292,7 +305,11 @@ func malformed(valid string) string {
 			f[i] = noncanon(f[i])
 		}
 	case 5: // trailing or leading slash / empty string / no slash
-		switch rng.Intn(6) {
+		switch rng.Intn(8) {
+		case 6: // a line terminator after (or before) an otherwise valid ID: the last field is then not an integer
+			return valid + []string{"\n", "\r\n", "\r", "\n\n", " ", "\t"}[rng.Intn(6)]
+		case 7:
+			return []string{"\n", " ", "\r\n"}[rng.Intn(3)] + valid
 		case 4: // a doubled delimiter inside: one surplus EMPTY field between two valid ones
 			i := 1 + rng.Intn(len(f)-1+boolToInt(len(f) == 1))
 			if i >= len(f) {
